@@ -251,7 +251,7 @@ ltostr(char *restrict buf, size_t bsz, long int v,
 		*bp++ = C(x);
 	}
 	/* fill up with padding */
-	if (UNLIKELY(pad)) {
+	if (UNLIKELY(pad) && pad < DT_SPPAD_OMIT) {
 		static const char pads[] = " 0";
 		const char p = pads[2U - pad];
 
